@@ -230,7 +230,15 @@ def index_in_range_by_construction(body, t):
             return False
         for b, i, d in ds:
             if i == "term":
-                if fn_matches(d, r"Iterator::(position|rposition|count)$", r"::len$") and d["args"] and op_place(d["args"][0]) is not None:
+                if fn_matches(d, r"str::<impl str>::(find|rfind)$") and d["args"] and op_place(d["args"][0]) is not None:
+                    # the byte offset at which a pattern was found in the string that is cut: in range and on a char boundary
+                    src = _iter_sources(body, op_place(d["args"][0])["l"])
+                    if src is None or not (src & target):
+                        return False
+                    ok_src += 1
+                elif fn_matches(d, r"Option::<T>::(unwrap_or|unwrap|expect)$") and d["args"] and op_place(d["args"][0]) is not None and False:
+                    pass
+                elif fn_matches(d, r"Iterator::(position|rposition|count)$", r"::len$") and d["args"] and op_place(d["args"][0]) is not None:
                     # a position in / the length of / a count over the collection the operation is applied to
                     src = _iter_sources(body, op_place(d["args"][0])["l"])
                     if src is None or not (src & target):
@@ -368,6 +376,14 @@ def justification(crate, caller, callee, origin, entries, _own={}):
             _own[key] = crate.owned_by(e["scope"]) if e["scope"] in crate.by_path else {e["scope"]}
         if caller in _own[key] or fold_closures(caller) in _own[key]:
             return e
+    # the same operation on the same kind of value, in the source file of the function the entry names (the code was moved
+    # into a neighbour: another method of the type, a new struct in the same module)
+    for e in cand:
+        sb = crate.by_path.get(e["scope"]) or []
+        cbs = crate.by_path.get(caller) or crate.by_path.get(fold_closures(caller)) or []
+        scope_file = (sb[0].file() if sb else None) or e.get("file")      # the entry remembers the file, should the function be gone
+        if cbs and scope_file and scope_file == cbs[0].file():
+            return e
     if len(cand) > 1:
         # the same operation on the same kind of value is justified in several functions: a helper shared by exactly those
         key = (id(crate), tuple(sorted(e["scope"] for e in cand)))
@@ -386,6 +402,12 @@ def discharged(body, site):
     t = body.term(site["block"])
     if t["k"] != "call":
         return None
+    if fn_matches(t, r"quote::__private::mk_ident$") and t["args"]:
+        # format_ident! whose text is, on every path, a constant that is an identifier
+        l = op_local(t["args"][0])
+        cs = [op_const(t["args"][0])] if op_const(t["args"][0]) is not None else [o.get("c") for o in M.origins(body, l)] if l is not None else []
+        if cs and all(c and re.match(r"^[A-Za-z_][A-Za-z0-9_]*$", str(c.get("str") or "")) for c in cs):
+            return "format_ident! of constant identifier text"
     if index_in_range_by_construction(body, t):
         return "index is position(..)/len() of the collection it is applied to"
     if constant_index_guarded(body, t, site["block"]) or switch_on_len_guarded(body, t, site["block"]):
